@@ -1507,7 +1507,21 @@ Proof.
   apply safe_ret. split; assumption.
 Qed.
 
-(* ---- Flatten (needs every SEC code to be one NewBatch accepts: [strict]) *)
+(* ---- Flatten *)
+
+Lemma copy_batch_WB h : (strict = true -> sec_valid (h_sec h) = true) -> WB (copy_batch h).
+Proof.
+  intros Hs. unfold copy_batch. pose proof (new_batch_WB h Hs) as Hnb.
+  destruct (new_batch h) as [nb|] eqn:E; [exact Hnb|].
+  unfold new_batch in E. destruct (sec_valid (h_sec h)) eqn:Hv; [discriminate|].
+  apply (bwf_wf_batch _ h). split; cbn [b_header b_control b_adv b_entries b_adventries].
+  - reflexivity.
+  - destruct (sec_eqb (h_sec h) ADV) eqn:Ea; [|reflexivity].
+    exfalso. destruct (h_sec h); cbn in Hv, Ea; congruence.
+  - intros ? [].
+  - intros ? [].
+  - intros Hst. specialize (Hs Hst). rewrite Hv. exact Hs.
+Qed.
 
 Lemma all_some_safe {A} (l : list (option A)) : (forall x, In x l -> exists a, x = Some a) -> safe (all_some l) top.
 Proof.
@@ -1541,11 +1555,10 @@ Proof.
 Qed.
 
 Lemma flatten_batches_safe l outs :
-  strict = true ->
   Forall (fun x => exists t, x = Some t /\ WB t) l -> Forall WB outs ->
   safe (flatten_batches l outs) (Forall WB).
 Proof.
-  intros Hst. revert outs. induction l as [|x t IH]; intros outs Hl Ho; cbn [flatten_batches].
+  revert outs. induction l as [|x t IH]; intros outs Hl Ho; cbn [flatten_batches].
   - apply safe_ret. exact Ho.
   - inversion Hl as [|? ? (b & -> & Wb) Ht]; subst. destruct (wf_batch_bwf b Wb) as (h & W).
     bstep W. apply safe_bind_flip. intros nomatch.
@@ -1555,8 +1568,7 @@ Proof.
       apply consume_into_safe; assumption. }
     intros [outs'|] Hr.
     + apply safe_bind_unit; [apply all_some_safe; exact (bw_a _ _ W)|]. apply IH; assumption.
-    + pose proof (new_batch_WB h (bw_s _ _ W)) as Hnb. unfold new_batch in *.
-      rewrite (bw_s _ _ W Hst) in *. cbn [OB] in Hnb.
+    + pose proof (copy_batch_WB h (bw_s _ _ W)) as Hnb.
       apply safe_bind_unit; [apply all_some_safe; exact (bw_a _ _ W)|].
       apply IH; [exact Ht|]. apply Forall_app. split; [exact Ho|]. constructor; [|constructor].
       apply WB_set_adventries; [|exact (bw_a _ _ W)].
@@ -1595,13 +1607,13 @@ Proof.
     + apply IH; assumption.
 Qed.
 
-Lemma file_flatten_safe f : strict = true -> WF f -> safe (file_flatten f) WF.
+Lemma file_flatten_safe f : WF f -> safe (file_flatten f) WF.
 Proof.
-  intros Hst Wf. unfold file_flatten.
+  intros Wf. unfold file_flatten.
   apply safe_bind_unit.
   { apply safe_when. intros _. apply all_some_safe. intros x Hin.
     pose proof (WF_batches f Wf) as Hb. rewrite Forall_forall in Hb. destruct (Hb x Hin) as (b & -> & _). eauto. }
-  eapply safe_bind; [apply flatten_batches_safe; [exact Hst|exact (WF_batches f Wf)|constructor]|]. intros outs Ho.
+  eapply safe_bind; [apply flatten_batches_safe; [exact (WF_batches f Wf)|constructor]|]. intros outs Ho.
   eapply safe_bind; [apply flatten_iat_safe; [exact (WF_iat f Wf)|constructor]|]. intros iouts Hi.
   eapply safe_bind; [apply add_flattened_safe; [exact Ho|exact WF_new_file]|]. intros nf Wn.
   eapply safe_bind; [apply add_flattened_iat_safe; [exact Hi|exact Wn]|]. intros nf' Wn'.
@@ -1669,13 +1681,12 @@ Proof.
 Qed.
 
 (* ------------------------------------------------------------------ *)
-(* every operation keeps a well-formed file well-formed and never panics; FlattenBatches needs [strict] *)
+(* every operation keeps a well-formed file well-formed and never panics (FlattenBatches needed [strict] until
+   mergeableBatcher.Copy stopped dropping the error of NewBatch) *)
 
-Definition op_allowed (x : op) : Prop := x = OFlatten -> strict = true.
-
-Lemma run_op_inv x : op_allowed x -> hoare WF (run_op x) (fun _ => WF) WF.
+Lemma run_op_inv x : hoare WF (run_op x) (fun _ => WF) WF.
 Proof.
-  intros Hx. destruct x; cbn [run_op].
+  destruct x; cbn [run_op].
   - apply file_validate_inv.
   - apply file_create_inv.
   - apply file_write_inv.
@@ -1683,7 +1694,7 @@ Proof.
   - unfold file_marshal. apply hoare_check.
   - eapply hoare_bind; [apply file_segment_inv|]. intros r. apply hoare_ret. intros s [Hs _]. exact Hs.
   - apply hst_of. intros f Wf. apply hst_get.
-    eapply hst_ro; [apply (file_flatten_safe f (Hx eq_refl) Wf)|exact Wf|]. intros _ _. apply hst_ret. exact Wf.
+    eapply hst_ro; [apply (file_flatten_safe f Wf)|exact Wf|]. intros _ _. apply hst_ret. exact Wf.
   - apply hst_of. intros f Wf. apply hst_get.
     eapply hst_ro; [apply (merge_files_safe [Some f])|exact Wf|].
     + constructor; [eauto|constructor].
@@ -1693,34 +1704,32 @@ Proof.
   - apply batches_validate_inv.
 Qed.
 
-Lemma run_ops_inv xs : Forall op_allowed xs -> hoare WF (run_ops xs) (fun _ => WF) WF.
+Lemma run_ops_inv xs : hoare WF (run_ops xs) (fun _ => WF) WF.
 Proof.
-  induction xs as [|x t IH]; intros Hx; cbn [run_ops].
+  induction xs as [|x t IH]; cbn [run_ops].
   - apply hoare_ret. auto.
-  - inversion Hx as [|? ? H1 H2]; subst.
-    eapply hoare_bind; [eapply hoare_try; [apply run_op_inv; exact H1|auto]|]. intros ?. apply IH. exact H2.
+  - eapply hoare_bind; [eapply hoare_try; [apply run_op_inv|auto]|]. intros ?. apply IH.
 Qed.
 
 (* … also when every operation continues on the file the previous one returned *)
-Lemma run_op_result_inv x : op_allowed x -> hoare WF (run_op_result x) (fun _ => WF) WF.
+Lemma run_op_result_inv x : hoare WF (run_op_result x) (fun _ => WF) WF.
 Proof.
-  intros Hx. destruct x; cbn [run_op_result]; try (apply run_op_inv; exact Hx).
+  destruct x; cbn [run_op_result]; try (apply run_op_inv).
   - eapply hoare_bind; [apply file_segment_inv|]. intros r.
     intros s o (_ & Hc & _). exact Hc.
   - apply hst_of. intros f Wf. apply hst_get.
-    eapply hst_ro; [apply (file_flatten_safe f (Hx eq_refl) Wf)|exact Wf|]. intros g Wg. apply hst_put_end. exact Wg.
+    eapply hst_ro; [apply (file_flatten_safe f Wf)|exact Wf|]. intros g Wg. apply hst_put_end. exact Wg.
   - apply hst_of. intros f Wf. apply hst_get.
     eapply hst_ro; [apply (merge_files_safe [Some f])|exact Wf|].
     + constructor; [eauto|constructor].
     + intros [g|] Wg; [apply hst_put_end; exact Wg|apply hst_ret; exact Wf].
 Qed.
 
-Lemma run_ops_result_inv xs : Forall op_allowed xs -> hoare WF (run_ops_result xs) (fun _ => WF) WF.
+Lemma run_ops_result_inv xs : hoare WF (run_ops_result xs) (fun _ => WF) WF.
 Proof.
-  induction xs as [|x t IH]; intros Hx; cbn [run_ops_result].
+  induction xs as [|x t IH]; cbn [run_ops_result].
   - apply hoare_ret. auto.
-  - inversion Hx as [|? ? H1 H2]; subst.
-    eapply hoare_bind; [eapply hoare_try; [apply run_op_result_inv; exact H1|auto]|]. intros ?. apply IH. exact H2.
+  - eapply hoare_bind; [eapply hoare_try; [apply run_op_result_inv|auto]|]. intros ?. apply IH.
 Qed.
 
 End Strict.
@@ -1736,27 +1745,30 @@ Theorem ops_total_wf f xs o :
   wf_file f = true -> ~ In OFlatten xs -> panics (run_ops xs f o) = false.
 Proof.
   intros Wf Hx. eapply (hoare_no_panic (WF false)); [apply run_ops_inv|exact Wf].
-  apply Forall_forall. intros x Hin ->. contradiction.
 Qed.
+
+(* every call sequence, FlattenBatches included, on a well-formed file *)
+Theorem ops_total_all f xs o : wf_file f = true -> panics (run_ops xs f o) = false.
+Proof. intros Wf. eapply (hoare_no_panic (WF false)); [apply run_ops_inv|exact Wf]. Qed.
+
+Theorem ops_result_total_all f xs o : wf_file f = true -> panics (run_ops_result xs f o) = false.
+Proof. intros Wf. eapply (hoare_no_panic (WF false)); [apply run_ops_result_inv|exact Wf]. Qed.
 
 (* all operations when moreover every SEC code is one NewBatch accepts *)
 Theorem ops_total_strict f xs o : wf_file_strict f = true -> panics (run_ops xs f o) = false.
 Proof.
   intros Wf. eapply (hoare_no_panic (WF true)); [apply run_ops_inv|exact Wf].
-  apply Forall_forall. intros x _ _. reflexivity.
 Qed.
 
 Theorem ops_result_total_strict f xs o : wf_file_strict f = true -> panics (run_ops_result xs f o) = false.
 Proof.
   intros Wf. eapply (hoare_no_panic (WF true)); [apply run_ops_result_inv|exact Wf].
-  apply Forall_forall. intros x _ _. reflexivity.
 Qed.
 
 Theorem ops_result_total_wf f xs o :
   wf_file f = true -> ~ In OFlatten xs -> panics (run_ops_result xs f o) = false.
 Proof.
   intros Wf Hx. eapply (hoare_no_panic (WF false)); [apply run_ops_result_inv|exact Wf].
-  apply Forall_forall. intros x Hin ->. contradiction.
 Qed.
 
 (* ------------------------------------------------------------------ *)
